@@ -58,7 +58,7 @@ CONFIG = {
     'quick': {'shards': 16, 'cases': 40, 'timeout': 600, 'floor': 128},
     'thorough': {'shards': 32, 'cases': 1400, 'timeout': 5400, 'floor': 8960},
 }
-REQUIRED = ['lik_std_checked', 'lik_whiten_checked', 'lik_warton_checked', 'lik_whiten_warton_checked', 'lik_go_checked',
+REQUIRED = ['mh_runs_after_an_earlier_call_in_another_order', 'lik_std_checked', 'lik_whiten_checked', 'lik_warton_checked', 'lik_whiten_warton_checked', 'lik_go_checked',
             'lik_go_indefinite_checked', 'lik_mean_checked', 'lik_variance_checked', 'lik_checked_inside_runs',
             'tf_roundtrip_type0', 'tf_roundtrip_type1', 'tf_roundtrip_type2', 'tf_roundtrip_type3',
             'mh_transitions_checked', 'mh_ratio_values_checked', 'mh_accepted', 'mh_rejected', 'mh_zero_prior_proposals',
@@ -555,6 +555,21 @@ def run_mh(ctx, case):
     if misspec:
         kwargs.update(tau=case['tau'], w=case['w'])
     once = {}
+    if k >= 2 and case['seed'] % 3 == 0:
+        # an earlier, short estimation on the same sampler object with the parameters listed in another order: whatever the sampler
+        # keeps between calls (prior, state) must not leak into the checked call below
+        pre = list(order)[::-1]
+        idx = [order.index(n) for n in pre]
+        pkw = dict(kwargs)
+        if bound is not None:
+            pkw['logit_transform_bound'] = [tuple(r) for r in bound[idx].tolist()]
+        try:
+            bsl.sample(3, sigma_proposals=Sigma[np.ix_(idx, idx)].copy(), params0=p0[idx].tolist(), param_names=pre, burn_in=0, bar=False, **pkw)
+            ctx.event('mh_runs_after_an_earlier_call_in_another_order')
+        except RuntimeError as ex:
+            if 'initialisation round' not in str(ex):
+                raise
+        del LOG[:]
     try:
         res = bsl.sample(N, sigma_proposals=Sigma.copy(), params0=p0.tolist(), param_names=list(order) if case['perm_names'] else None,
                          burn_in=case['burn_in'], bar=False, **kwargs)
